@@ -20,13 +20,14 @@ import (
 func init() { modes["orders"] = runOrders }
 
 type hgInst struct {
-	w      *World
-	h      *hg.Hashgraph
-	st     hg.Store
-	blocks []*hg.Block
-	digs   []string
-	evs    [][]string
-	dir    string
+	w          *World
+	h          *hg.Hashgraph
+	st         hg.Store
+	blocks     []*hg.Block
+	digs       []string
+	evs        [][]string
+	dir        string
+	outOfOrder int // passes after which a later pending round was decided while an earlier one was not
 }
 
 func (w *World) newInst(genesis []int, kind string, cache int, dir string) (*hgInst, error) {
@@ -121,6 +122,12 @@ func (in *hgInst) feed(order []*EvInfo, batch int) (err error) {
 		if batch == 1 {
 			if err := in.h.InsertEventAndRunConsensus(ev, true); err != nil {
 				return fmt.Errorf("insert %s: %v", inf.ID, err)
+			}
+			pend := in.h.PendingRounds.GetOrderedPendingRounds()
+			for k := 1; k < len(pend); k++ {
+				if !pend[k-1].Decided && pend[k].Decided {
+					in.outOfOrder++
+				}
 			}
 			continue
 		}
@@ -269,10 +276,80 @@ func idsOf(order []*EvInfo) []string {
 	return res
 }
 
+// funkyDAG: the repository's "funky" hand-drawn hashgraph (fame of early rounds
+// decided through later and coin rounds, rounds decided out of order) built
+// with real keys, followed by ordinary round-robin gossip.
+func funkyDAG(w *World, pre, extra int) {
+	type play struct {
+		to, index int
+		sp, op    string
+		name      string
+	}
+	idx := map[string]string{"": ""}
+	last := map[int]string{}
+	seq := map[int]int{}
+	mk := func(to, index int, sp, op, name string) {
+		p := w.parts[to]
+		ev := hg.NewEvent([][]byte{[]byte(name)}, nil, nil, []string{idx[sp], idx[op]}, p.Pub, index)
+		ev.Body.Timestamp = w.tsBase + int64(len(w.events))
+		if err := ev.Sign(p.Key); err != nil {
+			panic(err)
+		}
+		w.NewTx([]byte(name))
+		w.Register(ev)
+		idx[name] = ev.Hex()
+		last[to] = name
+		seq[to] = index
+	}
+	for i := 0; i < 4; i++ {
+		mk(i, 0, "", "", fmt.Sprintf("g%d", i))
+	}
+	// an ordinary, well connected prefix (so that early blocks - possible anchors -
+	// lie below the funky region), then a layer w00..w03 on which the plays build
+	if pre > 0 {
+		for rep := 0; rep < pre; rep++ {
+			for i := 0; i < 4; i++ {
+				mk(i, seq[i]+1, last[i], last[(i+3)%4], fmt.Sprintf("p%d_%d", rep, i))
+			}
+		}
+	}
+	for i := 0; i < 4; i++ {
+		op := ""
+		if pre > 0 {
+			op = last[(i+3)%4]
+		}
+		base := last[i]
+		mk(i, seq[i]+1, base, op, fmt.Sprintf("w0%d", i))
+	}
+	plays := []play{
+		{2, 1, "w02", "w03", "a23"}, {1, 1, "w01", "a23", "a12"}, {0, 1, "w00", "", "a00"}, {1, 2, "a12", "a00", "a10"},
+		{2, 2, "a23", "a12", "a21"}, {3, 1, "w03", "a21", "w13"}, {2, 3, "a21", "w13", "w12"}, {1, 3, "a10", "w12", "w11"},
+		{0, 2, "a00", "w11", "w10"}, {2, 4, "w12", "w11", "b21"}, {3, 2, "w13", "b21", "w23"}, {1, 4, "w11", "w23", "w21"},
+		{0, 3, "w10", "", "b00"}, {1, 5, "w21", "b00", "c10"}, {2, 5, "b21", "c10", "w22"}, {0, 4, "b00", "w22", "w20"},
+		{1, 6, "c10", "w20", "w31"}, {2, 6, "w22", "w31", "w32"}, {0, 5, "w20", "w32", "w30"}, {3, 3, "w23", "w32", "w33"},
+		{1, 7, "w31", "w33", "d13"}, {0, 6, "w30", "d13", "w40"}, {1, 8, "d13", "w40", "w41"}, {2, 7, "w32", "w41", "w42"},
+		{3, 4, "w33", "w42", "w43"}, {2, 8, "w42", "w43", "e23"}, {1, 9, "w41", "e23", "w51"},
+	}
+	for _, p := range plays {
+		mk(p.to, seq[p.to]+1, p.sp, p.op, p.name) // (the play's self-parent is always the creator's last event)
+	}
+	// ordinary continuation: creators take turns, each on top of the previous creator's last event
+	prev := 1
+	for k := 0; k < extra; k++ {
+		to := (prev + 1 + w.rng.Intn(3)) % 4
+		if to == prev {
+			to = (to + 1) % 4
+		}
+		mk(to, seq[to]+1, last[to], last[prev], fmt.Sprintf("x%d", k))
+		prev = to
+	}
+}
+
 func runOrders(o *Opts) *Summary {
 	s := &Summary{Mode: "orders", Extra: map[string]interface{}{}}
 	var w *World
 	instances, unsupported := 0, 0
+	oooTotal := 0
 	for t := 0; t < o.Traces; t++ {
 		n := o.N
 		if n == 0 {
@@ -282,36 +359,43 @@ func runOrders(o *Opts) *Summary {
 		if w == nil {
 			w2.OpenTrace(os.DevNull)
 		}
-		// phase 1: grow a DAG with real cores (trace discarded)
+		// phase 1: grow a DAG with real cores (trace discarded), or draw the funky one
 		w2.OpenTrace(os.DevNull)
 		w2.tsBase = time.Now().Unix()
-		cn := NewCoreNet(w2, CoreOpts{N: n, Store: "inmem", Cache: 100000})
-		sc := makeSched(w2, schedNames[t%len(schedNames)], n, o.Steps)
-		for k := 0; k < o.Steps; k++ {
-			if w2.rng.Float64() < o.TxP {
-				tgt := cn.nodes[w2.rng.Intn(len(cn.nodes))]
-				id, payload := w2.RandTx()
-				_ = id
-				tgt.core.AddTransactions([][]byte{payload})
-			}
-			if n == 1 {
-				cn.MonologueStep(cn.nodes[0], false)
-				continue
-			}
-			a, b, limit, ok := sc.pick(k)
-			if ok {
-				cn.SyncStep(cn.byNum[a], cn.byNum[b], limit, false)
-			}
-		}
-		// final all-to-all so that the DAG is one connected history
-		for _, a := range cn.nodes {
-			for _, b := range cn.nodes {
-				if a != b {
-					cn.SyncStep(a, b, 0, false)
+		if o.Sched == "funky" {
+			n = 4
+			w2 = NewWorld(o.Seed*1000+int64(t), 4)
+			w2.OpenTrace(os.DevNull)
+			w2.tsBase = time.Now().Unix()
+			funkyDAG(w2, (t%3)*3, 20+w2.rng.Intn(30))
+		} else {
+			cn := NewCoreNet(w2, CoreOpts{N: n, Store: "inmem", Cache: 100000})
+			sc := makeSched(w2, schedNames[t%len(schedNames)], n, o.Steps)
+			for k := 0; k < o.Steps; k++ {
+				if w2.rng.Float64() < o.TxP {
+					tgt := cn.nodes[w2.rng.Intn(len(cn.nodes))]
+					_, payload := w2.RandTx()
+					tgt.core.AddTransactions([][]byte{payload})
+				}
+				if n == 1 {
+					cn.MonologueStep(cn.nodes[0], false)
+					continue
+				}
+				a, b, limit, ok := sc.pick(k)
+				if ok {
+					cn.SyncStep(cn.byNum[a], cn.byNum[b], limit, false)
 				}
 			}
+			// final all-to-all so that the DAG is one connected history
+			for _, a := range cn.nodes {
+				for _, b := range cn.nodes {
+					if a != b {
+						cn.SyncStep(a, b, 0, false)
+					}
+				}
+			}
+			cn.Close()
 		}
-		cn.Close()
 		w2.CloseTrace()
 		// phase 2: the real trace
 		if w == nil {
@@ -365,15 +449,88 @@ func runOrders(o *Opts) *Summary {
 			}
 		}
 		out0["rounds"] = rounds
+		out0["outOfOrder"] = in0.outOfOrder
+		oooTotal += in0.outOfOrder
 		w.Emit(1, "HgInsert", map[string]interface{}{"ins": idsOf(ref)}, out0)
+		// fast-sync continuation at hashgraph level: reset a fresh instance from
+		// each block of the reference (block + frame through their wire encoding),
+		// feed it the events above the frame, compare what it delivers
+		nreset := 0
+		for _, b := range in0.blocks {
+			if nreset >= 14 {
+				continue
+			}
+			fr, err := in0.st.GetFrame(b.RoundReceived())
+			if err != nil {
+				continue
+			}
+			fb, err1 := fr.Marshal()
+			bb, err2 := b.Marshal()
+			if err1 != nil || err2 != nil {
+				continue
+			}
+			fr2, b2 := new(hg.Frame), new(hg.Block)
+			if fr2.Unmarshal(fb) != nil || b2.Unmarshal(bb) != nil {
+				continue
+			}
+			in, err := w.newInst(gen, "inmem", 100000, "")
+			if err != nil {
+				panic(err)
+			}
+			rerr := in.h.Reset(b2, fr2)
+			top := map[int]int{} // highest index per creator held after the reset
+			for c := 1; c <= n; c++ {
+				top[c] = -1
+			}
+			for _, r := range fr2.Roots {
+				for _, fe := range r.Events {
+					if inf := w.events[fe.Core.Hex()]; inf != nil && inf.I > top[inf.C] {
+						top[inf.C] = inf.I
+					}
+				}
+			}
+			for _, fe := range fr2.Events {
+				if inf := w.events[fe.Core.Hex()]; inf != nil && inf.I > top[inf.C] {
+					top[inf.C] = inf.I
+				}
+			}
+			fed, failed := 0, ""
+			if rerr != nil {
+				failed = "reset: " + rerr.Error()
+			}
+			for _, inf := range ref {
+				if failed != "" {
+					break
+				}
+				if inf.I <= top[inf.C] {
+					continue
+				}
+				if err := in.h.InsertEventAndRunConsensus(freshEvent(inf.Ev), true); err != nil {
+					if hg.IsNormalSelfParentError(err) {
+						continue
+					}
+					failed = inf.ID + ": " + err.Error() // the obligation stops at the first event it cannot insert
+					break
+				}
+				fed++
+			}
+			outR := in.output([]*EvInfo{})
+			outR["stopped"] = failed
+			x := map[string]interface{}{"kind": "reset", "store": "inmem", "cache": 100000, "batch": 1, "subset": false,
+				"nins": fed, "order": "ref", "reset": b.Index(), "reset_rr": b.RoundReceived()}
+			w.Emit(1, "Instance", x, outR)
+			in.close()
+			instances++
+			nreset++
+		}
 		in0.close()
 		instances++
 
 		type variant struct {
-			kind, store string
+			kind, store  string
 			cache, batch int
-			order       []*EvInfo
-			subset      bool
+			order        []*EvInfo
+			subset       bool
 		}
 		vs := []variant{}
 		norders := 6
@@ -468,6 +625,7 @@ func runOrders(o *Opts) *Summary {
 	s.Steps = instances
 	s.Lines = w.lines
 	s.Extra["instances"] = instances
+	s.Extra["passes_with_rounds_decided_out_of_order"] = oooTotal
 	s.Extra["unsupported_configurations"] = unsupported
 	w.CloseTrace()
 	return s
